@@ -76,8 +76,15 @@ def run_demo(pid, n, release):
     """-> (passes, transcript)"""
     d = SRC % pid
     prof = "--release" if release else ""
-    prefer_rs = os.path.exists("%s/demo%d.rs" % (d, n)) and (os.path.exists("%s/run_demo.sh" % d) or ROUND in ("3", "4", "5", "6"))
-    if os.path.exists("%s/demo%d.yl" % (d, n)) and not prefer_rs:
+    prefer_rs = os.path.exists("%s/demo%d.rs" % (d, n)) and (os.path.exists("%s/run_demo.sh" % d) or ROUND in ("3", "4", "5", "6", "7"))
+    ydir = d
+    if not os.path.exists("%s/demo%d.yl" % (d, n)) and os.path.isdir("%s/demo%d" % (d, n)):
+        # the demonstration is a small directory tree of modules: run the script from the directory it lives in
+        for root, _dirs, files in os.walk("%s/demo%d" % (d, n)):
+            if "demo%d.yl" % n in files:
+                ydir = root
+    if os.path.exists("%s/demo%d.yl" % (ydir, n)) and not prefer_rs:
+        d_save, d = d, ydir
         limit = ""
         if os.path.exists("%s/demo%d.sh" % (d, n)):
             m_ = re.search(r"ulimit -v (\d+)", open("%s/demo%d.sh" % (d, n)).read())
@@ -85,6 +92,7 @@ def run_demo(pid, n, release):
                 limit = "ulimit -v %s; " % m_.group(1)      # the demonstration runs under an address-space budget
         rc, out = sh("cargo build --manifest-path %s/Cargo.toml --offline -q %s -p yarel-cli >/dev/null 2>&1; bash -c '%s%s/target/%s/yarel-cli demo%d.yl 2>/dev/null'" % (
             WT, prof, limit, WT, "release" if release else "debug", n), cwd=d, timeout=600)
+        d = d_save
         exp = open("%s/demo%d.expected" % (d, n)).read()
         ok = matches(out, exp) and rc not in (101, 134, 139)      # a panic / abort / segfault never counts as passing
         return ok, "exit=%d\n%s" % (rc, out[-1500:])
@@ -138,9 +146,9 @@ def main():
     results = {}
     for pid, n in cands:
         key = seeded_id(pid, n)
-        if ROUND == "6":
+        if ROUND in ("6", "7"):
             # round 6 was assigned by subsystem (directories A..F); the kept change is filed under the property it breaks
-            key = "%s-r6-%s%d" % (json.load(open((SRC % pid) + "/meta%d.json" % n))["property"], pid, n)
+            key = ("%s-r" + ROUND + "-%s%d") % (json.load(open((SRC % pid) + "/meta%d.json" % n))["property"], pid, n)
         patch = (SRC % pid) + "/patch%d.diff" % n
         adapted = "/tmp/adapted/%sr%s-%d.diff" % (pid, ROUND, n)
         if os.path.exists(adapted):
